@@ -1085,9 +1085,14 @@ impl Store {
         client_id: ClientId,
         path: &[RegularKeySegment],
     ) -> WorterbuchResult<Option<ClientId>> {
-        let node = self.get_or_create_lock_node(path.into());
+        // look the node up without creating it: releasing a key that is not locked must not
+        // leave empty nodes in the lock tree
+        let mut current = Some(&mut self.locks);
+        for elem in path {
+            current = current.and_then(|node| node.get_child_mut(elem));
+        }
 
-        if let Some(lock) = node.value_mut() {
+        if let Some(lock) = current.and_then(Node::value_mut) {
             let (was_holder, new_holder) = lock.release(client_id).await;
             if !was_holder {
                 return Err(WorterbuchError::KeyIsLocked(path.join("/")));
